@@ -141,32 +141,34 @@ def tab_n(ctx):
 
 
 def overall_len(ctx):
+    """overall_length() on a header of each of the 16 presence patterns (the rule constructs the input of each shape,
+    so the verdict does not depend on how the function branches)."""
+    import itertools
+    from engine.state import State
     F, R = ctx.facts, ctx.report
-    eng = Engine(F)
-    eng.key_all = True
     b = F.body(OVERALL)
-    outs = eng.call_path(OVERALL, eng.symbolic_args(b, names=["self"]))
     n = 0
-    for st, rv in outs:
-        kd = lib_wire.key_dict(st)
-        flags = {}
-        for k in st.key:
-            if k[0] == "variant" and k[1] in ("*self.ecu_id", "*self.session_id", "*self.timestamp"):
-                flags[k[1]] = 4 if k[2] == "Some" else 0
-            if k[0] == "sym" and k[1] == "*self.has_extended_header":
-                flags[k[1]] = 10 if k[2] else 0
-        if len(flags) != 4 or not isinstance(rv, Int):
-            R.violation("LEN", OVERALL + "|partition", "overall_length is not a function of the four presence flags (%s)" % sorted(flags), function=OVERALL, kind="UNRECOGNISED-SHAPE")
-            continue
+    for ecu, sid, ts, ext in itertools.product(("Some", "None"), ("Some", "None"), ("Some", "None"), (True, False)):
+        eng = Engine(F)
+        eng.merge_returns = True
+        st = State()
+        args = eng.symbolic_args(b, names=["self"])
+        a0 = eng.M.force(st, args[0])
+        ok = isinstance(a0, Ref) and lib_wire.restrict(eng, st, a0.loc, ["ecu_id"], ecu) and lib_wire.restrict(eng, st, a0.loc, ["session_id"], sid) and lib_wire.restrict(eng, st, a0.loc, ["timestamp"], ts) and lib_wire.restrict(eng, st, a0.loc, ["has_extended_header"], ext)
+        if not ok:
+            R.violation("LEN", OVERALL + "|shape", "cannot construct a StandardHeader input of a given presence pattern", function=OVERALL, kind="UNRECOGNISED-SHAPE")
+            return
+        outs = eng.call_path(OVERALL, [a0], st=st)
+        hl = 4 + (4 if ecu == "Some" else 0) + (4 if sid == "Some" else 0) + (4 if ts == "Some" else 0) + (10 if ext else 0)
+        want = Lin.sym("*self.payload_length").add(Lin.const(hl))
+        pat = "ecu=%s sid=%s ts=%s ext=%s" % (ecu, sid, ts, ext)
+        vals = {repr(rv.lin) if isinstance(rv, Int) else "?" for _, rv in outs}
         n += 1
-        want = Lin.sym("*self.payload_length").add(Lin.const(4 + sum(flags.values())))
-        if rv.lin == want:
-            R.obligation("LEN", "%s|%s" % (OVERALL, sorted(flags.items())), "discharged", "overall_length = %s" % want)
+        if outs and all(isinstance(rv, Int) and (rv.lin == want or (s2.holds(rv.lin.sub(want), eng) and s2.holds(want.sub(rv.lin), eng))) for s2, rv in outs):
+            R.obligation("LEN", "%s|%s" % (OVERALL, pat), "discharged", "overall_length = %s" % want)
         else:
-            R.violation("LEN", "%s|value|%s" % (OVERALL, "".join("1" if flags[k] else "0" for k in sorted(flags))), "overall_length() = %s for presence pattern %s; the header lengths give %s" % (rv.lin, {k: bool(v) for k, v in flags.items()}, want), function=OVERALL, file=b["span"]["f"], line=b["span"]["l"])
+            R.violation("LEN", "%s|value|%s" % (OVERALL, pat.replace(" ", ",")), "overall_length() = %s for a header with %s; the header lengths give %s" % (sorted(vals), pat, want), function=OVERALL, file=b["span"]["f"], line=b["span"]["l"])
     R.instance("LEN", "%d presence patterns of overall_length()" % n)
-    if n != 16:
-        R.violation("LEN", OVERALL + "|patterns", "expected 16 presence patterns, saw %d" % n, function=OVERALL, kind="UNRECOGNISED-SHAPE")
     # byte_len forwards to header.overall_length()
     seen = []
     e2 = Engine(F)
